@@ -448,6 +448,7 @@ def expand(template_path, std=True):
                 text = "\n".join(derives) + "\n" + text
             text = resolve_cfg(text, std, g.log)
             text = fix_vis(strip_attrs(text))
+            text = re.sub(r"(?m)^(?=(enum|struct|trait|type|union)\b)", "pub ", text, count=1)   # Rvis: private items made pub
             for p in strips:
                 text = re.sub(r"(?<![A-Za-z0-9_:])" + re.escape(p), "", text)
             if fieldspub:
